@@ -78,6 +78,15 @@ def structure(raw: bytes):
     return out
 
 
+def _varint(v: int) -> bytes:
+    out = bytearray()
+    while v >= 0x80:
+        out.append((v & 0x7F) | 0x80)
+        v >>= 7
+    out.append(v)
+    return bytes(out)
+
+
 def attempt(args):
     """One faulted stream: load, list ids, fetch the zones named in `probe_ids` (+ a few more)."""
     path, kind, pos, payload, probe_ids, seed = args
@@ -99,9 +108,13 @@ def attempt(args):
         data = raw[:pos] + bytes(payload) + raw[pos:]
     elif kind == "delete":
         data = raw[:pos] + raw[pos + payload[0]:]
+    elif kind == "field":
+        # a whole field rewritten with consistent framing: pos = header start, payload = [old end - pos] + field id + new data bytes
+        span, fid, newdata = payload[0] * 65536 + payload[1] * 256 + payload[2], payload[3], bytes(payload[4:])
+        data = raw[:pos] + bytes([fid]) + _varint(len(newdata)) + newdata + raw[pos + span:]
     else:
         raise ValueError(kind)
-    ev = {"op": "fault", "file": path.split("/")[-1], "kind": kind, "pos": pos, "payload": list(payload) if kind != "trunc" else [], "zones": [],
+    ev = {"op": "fault", "file": path.split("/")[-1], "kind": kind, "pos": pos, "payload": list(payload)[:12] if kind != "trunc" else [], "zones": [],
           "zone_where": [], "ids": "", "load_where": ""}
     o, w, src = _guard(lambda: TzdbDateTimeZoneSource.from_stream(io.BytesIO(data)))
     ev["load"], ev["load_where"] = o, w
@@ -131,6 +144,7 @@ def attempt(args):
 
 
 _RAW: dict = {}
+_NSTRUCT: dict = {}
 
 
 def plan(path: str, rnd: random.Random, q: bool) -> list:
@@ -176,12 +190,50 @@ def plan(path: str, rnd: random.Random, q: bool) -> list:
             for p in range(ds + 1, min(ds + 5, end)):
                 for payload in ([0xFF, 0xFF, 0xFF, 0x7F], [0xFF, 0xFF, 0xFF, 0xFF, 0x07], [0xFF, 0xFF, 0xFF, 0xFF]):
                     add("subst", p, payload, zid)
+    n_plain = len(tasks)
+    # semantic collisions inside a zone: a byte takes the value of another byte of the same zone's last 40 bytes (the recurring
+    # rules of the tail live there: equal months, equal offsets, equal names are what corrupt a zone while every field still decodes)
+    for fid, hs, ds, end, zid in fields:
+        if fid != 1 or end - ds < 12:
+            continue
+        if q and rnd.random() > 0.2:
+            continue
+        lo = max(ds + 2, end - 40)
+        pairs = [(p, p2) for p in range(lo, end) for p2 in range(lo, end) if p != p2 and raw[p] != raw[p2]]
+        for p, p2 in (rnd.sample(pairs, min(len(pairs), 25)) if q else pairs):
+            add("subst", p, [raw[p2]], zid)
+    # a zone's id (a pool index at the start of its field) replaced by other pool entries, framing kept consistent:
+    # the empty string, another zone's id (a duplicate), the last entry, an index past the pool
+    pool_field = next((f for f in fields if f[0] == 0), None)
+    if pool_field is not None:
+        from pyoda_time.time_zones.io._date_time_zone_reader import _DateTimeZoneReader
+
+        rd = _DateTimeZoneReader._ctor(io.BytesIO(raw[pool_field[2]:pool_field[3]]), None)
+        pool = [rd.read_string() for _ in range(rd.read_count())]
+        zone_ids = [f[4] for f in fields if f[0] == 1]
+        for fid, hs, ds, end, zid in fields:
+            if fid != 1 or (q and rnd.random() > 0.04):
+                continue
+            st = io.BytesIO(raw[ds:end])
+            _DateTimeZoneReader._ctor(st, None).read_count()
+            idlen = st.tell()
+            cands = [len(pool) - 1, len(pool), 0, pool.index(rnd.choice(zone_ids)) if rnd.choice(zone_ids) in pool else 1]
+            if "" in pool:
+                cands.append(pool.index(""))
+            for idx in cands:
+                newdata = _varint(idx) + raw[ds + idlen:end]
+                span = end - hs
+                add("field", hs, [span >> 16, (span >> 8) & 255, span & 255, 1] + list(newdata), zid)
+                tasks[-1] = tasks[-1][:4] + ([zid, "", pool[idx] if 0 <= idx < len(pool) else zid],) + tasks[-1][5:]
+    structured = tasks[n_plain:]
+    del tasks[n_plain:]
     # the 4-byte version header
     for p in range(4):
         for v in vals + [1]:
             if v != raw[p]:
                 add("subst", p, [v], None)
-    return tasks
+    _NSTRUCT[path] = len(structured)
+    return tasks + structured
 
 
 def run(ctx: Ctx):
@@ -194,7 +246,11 @@ def run(ctx: Ctx):
         _RAW[path] = open(path, "rb").read()
         t = plan(path, rnd, q)
         if q and len(t) > 6000:
-            t = rnd.sample(t, 6000)
+            # the structured faults (whole-field edits, semantic collisions in zone tails) are few and always kept
+            ns = _NSTRUCT[path]
+            keep, rest = t[len(t) - ns:], t[:len(t) - ns]
+            keep = keep if len(keep) <= 2500 else rnd.sample(keep, 2500)
+            t = keep + rnd.sample(rest, min(len(rest), 6000 - len(keep)))
         tasks += t
     rnd.shuffle(tasks)
     evs = parallel_map(attempt, tasks, chunksize=20)
@@ -204,7 +260,7 @@ def run(ctx: Ctx):
     ctx.notes["faulted_streams"] = len(evs)
     ctx.notes["load_outcomes"] = outcomes
     ctx.notes["zone_fetches"] = sum(len(e["zones"]) for e in evs)
-    ctx.notes["by_kind"] = {k: sum(1 for e in evs if e["kind"] == k) for k in ("trunc", "subst", "insert", "delete")}
+    ctx.notes["by_kind"] = {k: sum(1 for e in evs if e["kind"] == k) for k in ("trunc", "subst", "insert", "delete", "field")}
     ctx.distinct_nontrivial = len({(e["file"], e["kind"], e["pos"], tuple(e["payload"])) for e in evs})
     for e in evs[:3]:
         ctx.sample(e)
